@@ -6,6 +6,7 @@ class table, fault plan and fuel.
 -/
 import DTML.Render
 import DTML.Props.C08
+import DTML.GenRender
 set_option linter.unusedVariables false
 namespace DTML.Props.C14
 open DTML.Render
@@ -386,5 +387,43 @@ example : (topCall env 60 { blocks := [.lit "a".toList,
               [.call (.name "f".toList)]] }
       { kw := [("f".toList, .fn 1 .none)] }).2.trace = [.call 1] := by decide +kernel
 end Example
+
+/-! ### The handler search of the model is the one of the source
+
+`GenRender.findHandlerGen` / `matchBaseGen` are regenerated on every run from `Try.find_handler` / `Try.match_base` in /repo
+(the loop over the handlers with its three tests in the order of the source - the class's own name, the unnamed handler,
+a base class - and `return None`; the loop over `__bases__` with the recursive test).  They compute `findHandler` /
+`matchBase`, which `handler_selected`, `matchBase_sound` and `matchBase_complete` above are stated about. -/
+
+theorem gen_match_base_is_model (env : Env) : ∀ (fuel : Nat) (cls name : Text),
+    GenRender.matchBaseGen env fuel cls name = matchBase env fuel cls name := by
+  intro fuel
+  induction fuel with
+  | zero => intro cls name; rfl
+  | succ f ih =>
+    intro cls name
+    simp only [GenRender.matchBaseGen, matchBase]
+    cases env.classes.lookup cls with
+    | none => rfl
+    | some bases =>
+      simp only
+      congr 1
+      funext b
+      rw [ih]
+
+theorem gen_find_handler_is_model (env : Env) (cls : Text) : ∀ (hs : List (Text × List Blk)),
+    GenRender.findHandlerGen env hs cls = findHandler env hs cls := by
+  intro hs
+  induction hs with
+  | nil => rfl
+  | cons p rest ih =>
+    obtain ⟨e, h⟩ := p
+    simp only [GenRender.findHandlerGen, findHandler, List.find?_cons, gen_match_base_is_model]
+    by_cases hc : (e == cls || e.isEmpty || matchBase env 16 cls e) = true
+    · simp [hc]
+    · have hc' : (e == cls || e.isEmpty || matchBase env 16 cls e) = false := by simpa using hc
+      simp only [hc', Bool.false_eq_true, if_false]
+      rw [ih]
+      rfl
 
 end DTML.Props.C14
